@@ -104,6 +104,7 @@ ENTRIES = {
     "file:event_slot": dict(
         kind="std", file="nexosim/src/ports/sink/event_slot.rs",
         allowed={"std::option::Option::take": 1},
+        equiv={"std::mem::take": "std::option::Option::take"},
         why="the slot is emptied only by the reader's take",
     ),
     "file:seq_futures": dict(
@@ -162,7 +163,9 @@ def check(ctx, ids):
             allowed = e["allowed"]
         else:
             sites = _sites(P, lambda b, f=e["file"]: b.file == f, STD_MUT)
-            cen = collections.Counter(s.callee for s in sites)
+            # `equiv`: std calls that do the same thing as a confirmed one at this site (counted under the confirmed name)
+            eq = e.get("equiv", {})
+            cen = collections.Counter(eq.get(s.callee, s.callee) for s in sites)
             allowed = e["allowed"]
         if not sites:
             if e.get("may_be_absent"):
@@ -171,7 +174,7 @@ def check(ctx, ids):
                 ctx.missing("inventory %s: no site matched (%s)" % (eid, e.get("callee") or e.get("file")))
             continue
         over = [k for k, n in cen.items() if n > allowed.get(k, 0)]
-        bad = [s for s in sites if (s.body.file if e["kind"] == "api" else s.callee) in over]
+        bad = [s for s in sites if (s.body.file if e["kind"] == "api" else e.get("equiv", {}).get(s.callee, s.callee)) in over]
         what = "mutation inventory `%s`: %s. Confirmed sites: %s; found: %s" % (
             eid, e["why"], ", ".join("%s x%d" % (last_seg(k) if e["kind"] == "std" else k.replace("nexosim/src/", ""), v) for k, v in sorted(allowed.items())),
             ", ".join("%s x%d" % (last_seg(k) if e["kind"] == "std" else k.replace("nexosim/src/", ""), v) for k, v in sorted(cen.items())))
